@@ -20,6 +20,7 @@
 
 """SOCKS forwarding support"""
 
+import asyncio
 from ipaddress import ip_address
 from typing import TYPE_CHECKING, Callable, Optional
 
@@ -68,11 +69,21 @@ class SSHSOCKSForwarder(SSHLocalForwarder):
         self._host = ''
         self._port = 0
 
+    def connection_made(self, transport: asyncio.BaseTransport) -> None:
+        """Handle a newly opened SOCKS connection"""
+
+        super().connection_made(transport)
+
+        # Until the request is complete no channel ties this connection
+        # to the SSH connection it was accepted for
+        self._conn.add_pending_forwarder(self)
+
     def _connect(self) -> None:
         """Send request to open a new tunnel connection"""
 
         assert self._transport is not None
 
+        self._conn.remove_pending_forwarder(self)
         self._recv_handler = None
 
         orig_host, orig_port = self._transport.get_extra_info('peername')[:2]
@@ -218,6 +229,7 @@ class SSHSOCKSForwarder(SSHLocalForwarder):
 
         self._recv_handler = None
         self._inpbuf = b''
+        self._conn.remove_pending_forwarder(self)
 
         super().close()
 
